@@ -489,9 +489,14 @@ impl Hist {
     /// already exists"); the caller ends the history there.
     fn rebase(&mut self, mut_repo: &mut MutableRepo) -> bool {
         let mut rebased: Vec<(Commit, Commit)> = vec![];
-        let res = mut_repo.rebase_descendants_with_options(&RevsetExpression::none(), &RebaseOptions::default(), |old, new| {
+        // `rebase_descendants` can panic ("graph has cycle") after merging concurrent operations that rebased commits onto
+        // each other (C13's known finding `opmerge:cyclic-concurrent-rebases-panic`); the history then ends here.
+        let res = match guard(|| mut_repo.rebase_descendants_with_options(&RevsetExpression::none(), &RebaseOptions::default(), |old, new| {
             if let RebasedCommit::Rewritten(n) = new { rebased.push((old, n)); }
-        }).block_on();
+        }).block_on()) {
+            Ok(res) => res,
+            Err(msg) => { assert!(msg.contains("graph has cycle"), "unexpected panic in rebase_descendants: {msg}"); return false; }
+        };
         match res {
             Ok(()) => { for (old, new) in rebased { self.record(&new, &[old.id().clone()]); } true }
             Err(e) => { assert!(format!("{e}").contains("already exists"), "unexpected rebase error: {e}"); false }
@@ -536,9 +541,13 @@ fn real_histories(cfg: &Cfg, out: &mut Out) {
                 if r.chance(1, 2) {
                     // the real reconciliation path
                     step_kind = "concurrent-load-at-head";
-                    match base.loader().load_at_head().block_on() {
-                        Ok(repo) => hist.repo = repo,
-                        Err(e) => { assert!(format!("{e:?}").contains("already exists"), "unexpected error: {e:?}"); out.tally("step", "ended-identical-commit"); break 'steps; }
+                    // jj's own reconciliation can panic ("graph has cycle") when the concurrent sides rebase commits onto
+                    // each other — property C13's known finding `opmerge:cyclic-concurrent-rebases-panic`, not C46's
+                    // subject: such a history simply ends here.
+                    match guard(|| base.loader().load_at_head().block_on()) {
+                        Ok(Ok(repo)) => hist.repo = repo,
+                        Ok(Err(e)) => { assert!(format!("{e:?}").contains("already exists"), "unexpected error: {e:?}"); out.tally("step", "ended-identical-commit"); break 'steps; }
+                        Err(msg) => { assert!(msg.contains("graph has cycle"), "unexpected panic in load_at_head: {msg}"); out.tally("step", "ended-opmerge-cycle-panic(C13 known finding)"); break 'steps; }
                     }
                 } else {
                     let mut tx = hist.start_tx(&sides[0], 0);
